@@ -1001,6 +1001,9 @@ pub fn main(args: &Args) -> i32 {
     if let Some(p) = &args.replay {
         return replay(p);
     }
+    if args.extra.iter().any(|a| a == "--bench") {
+        return bench();
+    }
     let report = Report::new("C28", args.tier, args.seed, "model_checking");
     let depth = args.tier.pick(3usize, 4usize);
     let states: Mutex<HashSet<u64>> = Mutex::new(HashSet::new());
@@ -1098,4 +1101,27 @@ fn replay(path: &str) -> i32 {
             (!vs.is_empty()) as i32
         }
     }
+}
+
+/// Per-history cost breakdown (development aid): `zb C28 --bench`.
+fn bench() -> i32 {
+    let n = 2000;
+    let t = std::time::Instant::now();
+    for _ in 0..n {
+        let sys = Sys::new().unwrap();
+        drop(sys);
+    }
+    println!("Sys::new + drop: {:.1} us", t.elapsed().as_secs_f64() * 1e6 / n as f64);
+    let t = std::time::Instant::now();
+    for _ in 0..n {
+        let _ = run_history_k(0, &[], false);
+    }
+    println!("empty history (setup + snapshot): {:.1} us", t.elapsed().as_secs_f64() * 1e6 / n as f64);
+    let h = vec![POp::Set(4, PV::U(11)), POp::Get(4), POp::GetAll];
+    let t = std::time::Instant::now();
+    for _ in 0..n {
+        let _ = run_history_k(0, &h, false);
+    }
+    println!("3-op history: {:.1} us", t.elapsed().as_secs_f64() * 1e6 / n as f64);
+    0
 }
